@@ -262,7 +262,7 @@ Ltac munfold :=
          set_col, set_key, set_val, set_left, set_right, set_par, fld, load, store, get_root, set_root, get_size, set_size,
          bind, ret.
 Ltac mstep :=
-  cbn [pheap proot psize pnext pcalls isnil
+  cbn [pheap proot psize pnext pcalls isnil negb andb
        ncol nkey nval nleft nright npar with_col with_key with_val with_left with_right with_par];
   hsimp.
 Ltac mrun := repeat (progress mstep).
